@@ -2,7 +2,7 @@
 from .. import astu, ir, project
 from ..framework import Report, where
 from ..project import AnalysisBroken
-from ..rules import cppflow, typestate
+from ..rules import cppflow, initstate, typestate
 
 GEN = 'bxdecay0::decay0_generator'
 
@@ -128,4 +128,6 @@ def run(tier, seed):
     rep.assumptions += ['decided: guards, ordering, refusal of incomplete configurations, reset completeness (write sets)',
                         'not decided: that re-configuring after reset yields the same events as a fresh instance (follows '
                         'structurally from reset completeness + C07, not demonstrated)']
+    # a failed or earlier initialisation must leave nothing behind that the next one consults
+    initstate.def_before_use(rep, prog)
     return rep
